@@ -183,6 +183,19 @@ def gen(args) -> list:
             for kk in list(amts):
                 if rnd.random() < 0.35:
                     amts[kk] = 0
+            if rnd.random() < 0.15:
+                # time units only, netting to an exact number of whole days (24 hours; 23 hours and 60 minutes; 3 days in nanoseconds ...)
+                k = rnd.choice([1, -1, 2, 3, -3, 10])
+                amts = {kk: 0 for kk in amts}
+                form = rnd.randrange(4)
+                if form == 0:
+                    amts["hours"] = 24 * k
+                elif form == 1:
+                    amts["hours"], amts["minutes"] = 24 * k - 1, 60
+                elif form == 2:
+                    amts["nanoseconds"] = k * 86400 * 10**9
+                else:
+                    amts["hours"], amts["seconds"], amts["milliseconds"] = 24 * k - 2, 7199, 1000
             p = Period.zero
             for kk, v in amts.items():
                 if v:
